@@ -79,6 +79,9 @@ structure GNode where
   name  : String
   pid   : String
   ready : Bool        -- the Node's Ready condition has status True
+  /-- the Node carries a deletion timestamp (it is draining under the termination finalizer) but still exists.
+      The collector does not look at it: a terminating Node is a present Node. -/
+  terminating : Bool := false
 deriving Repr, DecidableEq
 
 structure GCIn where
@@ -282,6 +285,9 @@ deriving Repr, DecidableEq
 structure RNode where
   pool  : String            -- value of the nodepool label; "" = none
   conds : List NCond
+  /-- the Node carries a deletion timestamp (e.g. it is draining after an earlier repair) but still exists.
+      `areNodesHealthy` lists and counts it like any other Node of the pool. -/
+  terminating : Bool := false
 deriving Repr, DecidableEq
 
 inductive Annot | none | time (sec : Int) | garbage
@@ -366,5 +372,93 @@ def repairB (i : RepairIn) : Out × RBranch :=
           else ({ deletes := 1, err := i.deleteFault.isErr }, .acted)
 
 def repair (i : RepairIn) : Out := (repairB i).1
+
+/-! ## Node repair over an evolving cluster
+
+One controller instance reconciling the Nodes of a cluster again and again while the cluster changes under it:
+conditions flip, Nodes whose NodeClaim was deleted start terminating (deletion timestamp set by the
+termination flow, object kept by the finalizer while the Node drains) and eventually disappear.  The
+controller keeps no state of its own between reconciles, so each reconcile is `repairB` on the cluster as it
+is at that moment; the only thing a reconcile changes is the NodeClaim it deleted (its finalizer keeps it,
+with a deletion timestamp).  (The termination-timestamp annotation a reconcile writes is not tracked: it only
+decides whether the next reconcile issues a Patch, and the Patch outcome is not varied here.) -/
+
+/-- a Node of the cluster together with its NodeClaim -/
+structure SNode where
+  node          : RNode
+  present       : Bool := true            -- the Node (and its NodeClaim) still exist
+  hasClaim      : Bool := true            -- `false`: a Node karpenter does not manage
+  claimPool     : Option String           -- nodepool label on the NodeClaim
+  claimDeleting : Bool := false
+deriving Repr, DecidableEq
+
+inductive REvent
+  /-- reconcile Node `k` with the clock at `now`; outcome of the Node list and of the Delete, if issued -/
+  | reconcile (k : Nat) (now : Int) (nodeListFault deleteFault : Fault)
+  /-- the kubelet / a monitor sets a condition of Node `k` -/
+  | setCond (k : Nat) (c : NCond)
+  /-- Node `k` gets a deletion timestamp; it stays present -/
+  | terminate (k : Nat)
+  /-- Node `k` and its NodeClaim are finalized and disappear -/
+  | gone (k : Nat)
+deriving Repr
+
+/-- replace the condition(s) of that type, or add it -/
+def setCondition (conds : List NCond) (c : NCond) : List NCond :=
+  if conds.any (fun x => x.type == c.type) then conds.map (fun x => if x.type == c.type then c else x)
+  else conds ++ [c]
+
+/-- what a reconcile of Node `k` sees -/
+def seqIn (ps : List Policy) (st : List SNode) (k : Nat) (now : Int) (nlf df : Fault) : Option RepairIn :=
+  match st[k]? with
+  | none => none
+  | some s =>
+    if !s.present then none
+    else some {
+      policies := ps, node := s.node, claims := if s.hasClaim then 1 else 0, claimPool := s.claimPool,
+      claimDeleting := s.claimDeleting, annot := .none,
+      others := ((st.eraseIdx k).filter (·.present)).map (·.node), now := now,
+      claimListFault := false, nodeListFault := nlf, patchFault := .none, deleteFault := df }
+
+def updateAt (st : List SNode) (k : Nat) (f : SNode → SNode) : List SNode :=
+  match st[k]? with
+  | some s => st.set k (f s)
+  | none => st
+
+/-- the cluster after an event; `deleted` = the reconcile deleted the Node's NodeClaim (Delete issued and
+    accepted by the API server) -/
+def applyEvent (st : List SNode) (ev : REvent) (deleted : Bool) : List SNode :=
+  match ev with
+  | .reconcile k _ _ _ => if deleted then updateAt st k (fun s => { s with claimDeleting := true }) else st
+  | .setCond k c => updateAt st k (fun s => { s with node := { s.node with conds := setCondition s.node.conds c } })
+  | .terminate k => updateAt st k (fun s => { s with node := { s.node with terminating := true } })
+  | .gone k => updateAt st k (fun s => { s with present := false })
+
+/-- one reconcile: the input it sees, what it does, the branch it took (`none`: not a reconcile, or the Node
+    is gone) -/
+def seqStep (ps : List Policy) (st : List SNode) (ev : REvent) : Option (RepairIn × Out × RBranch) :=
+  match ev with
+  | .reconcile k now nlf df =>
+    match seqIn ps st k now nlf df with
+    | some i => some (i, (repairB i).1, (repairB i).2)
+    | none => none
+  | _ => none
+
+/-- did that step delete the NodeClaim? (Delete issued, and not failed by the API server) -/
+def stepDeleted (ev : REvent) (r : Option (RepairIn × Out × RBranch)) : Bool :=
+  match ev, r with
+  | .reconcile _ _ _ df, some (_, o, _) => o.deletes > 0 && df == .none
+  | _, _ => false
+
+/-- the whole run: one entry per event -/
+def runSeq (ps : List Policy) : List SNode → List REvent → List (Option (RepairIn × Out × RBranch))
+  | _, [] => []
+  | st, ev :: rest =>
+    let r := seqStep ps st ev
+    r :: runSeq ps (applyEvent st ev (stepDeleted ev r)) rest
+
+/-- Delete calls issued in a run -/
+def totalDeletes (tr : List (Option (RepairIn × Out × RBranch))) : Nat :=
+  (tr.map (fun r => match r with | some (_, o, _) => o.deletes | none => 0)).sum
 
 end Karp.Reapers
